@@ -5,6 +5,7 @@ mod c02;
 mod c03;
 mod c04;
 mod c05;
+mod c05_hetero;
 mod c06;
 mod c07;
 mod c08;
